@@ -73,7 +73,10 @@ def gen_scenario(rng, max_levels=4, max_leaves=8, n_cells=None, tree=None, dyadi
             r = rng.random()
             if r < 0.3:
                 markers[key] = rng.sample(usable, min(2, len(usable)))
-            elif r < 0.4:
+            elif r < 0.4 and parent is not None and parent[0] == len(sc.tree.model) - 2:
+                # (only where the single child is a leaf: dropping the child's level would otherwise turn this parent
+                # into one with several children, and a needed entry without any query gene is a legitimate rejection
+                # when min_markers = 0 -- C08's c08_no_overlap_only_for_needed)
                 absent = [g for g in ref if g not in usable]
                 if absent:
                     markers[key] = rng.sample(absent, min(2, len(absent)))
